@@ -5,7 +5,7 @@ import z3
 
 from .common import PTask, run_pyvc_check, specs_module, parse_args, BASE_TRUSTED
 from .. import REPO
-from ..pyvc.src import Repo
+from ..pyvc.src import Repo, ShapeMismatch
 from ..pyvc.ctx import Settings, PyRaise
 from ..pyvc.interp import Interp
 from ..pyvc.interp_stmt import Frame, _Return
@@ -71,6 +71,10 @@ def t_digits(repo, specs, h, invert_j, flip_ij):
             if phase != "post":
                 return
             fl, dg = frame.locals["flips"], frame.locals["digits"]
+            if i not in before_flips:
+                # the shifting pass of s_to_anchor did not visit this position: the ghost script (one recorded state
+                # per position) does not fit the code any more - nothing is claimed
+                raise ShapeMismatch("CONTRACT-SHAPE-MISMATCH %s: the shifting loop does not visit digit position %d, which the un-shifting loop of %s visits" % (S2A, i, IJ2S))
             bf = before_flips[i]
             ctx.oblige("unshift-step-%d: flip state is the one the shift step saw" % i,
                        zand(zbool(ops.compare("==", fl[0], bf[0])), zbool(ops.compare("==", fl[1], bf[1]))), None, "ghost-assert")
